@@ -28,7 +28,7 @@ KeepHist = %s
 EmitHist = %s
 SPECIFICATION Spec
 """
-PROPS = "INVARIANT TypeOK\nPROPERTY Restores\nPROPERTY RestoresOnRaise\nPROPERTY DepthChecked\nPROPERTY SetGetIdentity\nCHECK_DEADLOCK FALSE\n"
+PROPS = "INVARIANT TypeOK\nPROPERTY Restores\nPROPERTY RestoresOnRaise\nPROPERTY DepthChecked\nPROPERTY SetGetIdentity\nPROPERTY ReenterRepeats\nCHECK_DEADLOCK FALSE\n"
 
 
 def _proj_level(R, i, drawn):
@@ -49,6 +49,7 @@ def replay_hist(hist):
         keep.append(g)
         shadow[id(g)] = np.random.default_rng(np.random.SeedSequence(42))
         open_ctx = []                      # (Context, top projection at entry, bit generator state at entry)
+        ctxobjs = {}                       # re-usable Context objects by seed
         saved = None
         drift = None
 
@@ -92,8 +93,13 @@ def replay_hist(hist):
                     if not np.array_equal(x, ref):
                         return "step %d: a draw differs from the draw of a reference generator built from the seed identity %s" % (i, ident(R._sseq[-1])), drift
                 drawn[id(g)] = drawn.get(id(g), 0) + 1
-            elif op in ("enter", "enter_spawned"):
-                if op == "enter":
+            elif op in ("enter", "enter_spawned", "reenter"):
+                if op == "reenter":
+                    if arg not in ctxobjs:
+                        ctxobjs[arg] = R.Context(arg)
+                    c = ctxobjs[arg]                 # the SAME Context object as in every earlier `reenter` of this seed
+                    before = snap()
+                elif op == "enter":
                     c = R.Context(arg)
                     before = snap()
                 else:
@@ -420,6 +426,10 @@ def run(ctx):
     # ---- spec -> code
     e = ctx.tlc("RandomCtx", CFG % (3, 4 if q else 5, "TRUE", "TRUE") + "INVARIANT Emit\nCHECK_DEADLOCK FALSE\n", label="emit histories", workers=1, timeout=1700)
     hists = [d["hist"] for d in e.emitted]
+    e2 = ctx.tlc("RandomCtx", CFG % (3, 5 if q else 6, "TRUE", "TRUE") + "INVARIANT Emit\nCONSTRAINT ReenterOnly\nCHECK_DEADLOCK FALSE\n", label="emit histories over re-used Context objects", workers=1, timeout=1700)
+    reh = [d["hist"] for d in e2.emitted if sum(1 for x in d["hist"] if x["op"] == "reenter") >= 2 and any(x["op"] == "draw" for x in d["hist"])]
+    if len(reh) < 20:
+        raise tlcmod.MachineryError("too few histories that re-enter a Context object: %d" % len(reh))
     nsim = 800 if q else 8000
     s = ctx.tlc("RandomCtx", CFG % (5, 12, "TRUE", "TRUE") + "INVARIANT Emit\nCHECK_DEADLOCK FALSE\n", label="simulate %d" % nsim, workers=1,
                 simulate=nsim, depth=13, seed=ctx.seed + 3, timeout=1700)
@@ -427,6 +437,7 @@ def run(ctx):
     if q and len(hists) > 6000:
         rng0 = random.Random(ctx.seed)
         hists = rng0.sample(hists, 6000)
+    hists += reh if not q else reh[ctx.seed % 2::2]
     for h in hists:
         viol, drift = replay_hist(h)
         ctx.case(tuple((x["op"], x["arg"], x["n"]) for x in h))
